@@ -67,9 +67,10 @@ PROPS["C06"] = {
     "assumptions": [
         "String used as a write-only output buffer is replaced by the sink model (kv/models/src/sink.rs): "
         "String::push / String::from(char) append to a fixed array that the oracle reads; contract: bytes appended, in order",
+        "thorough tier only: <CharSearcher as Searcher>::next_match (behind str::split) is stubbed by a plain scan that reads the searcher through a mirror struct; char_searcher_layout_witness proves the mirror right on concrete searchers in the same build; SourceWriter's indent string is installed directly instead of through str::repeat",
         "Kani/CBMC/cadical are sound; rustc MIR is the semantics of the source",
     ],
-    "outside": "SourceWriter::write/write_for, every write_for call site in the printers, print_source_map_json, "
+    "outside": "SourceWriter::write_for (names table, add_entry call sites), SourceWriter::write beyond two writes of 2 characters (thorough tier only), every write_for call site in the printers, print_source_map_json, "
                "and the file-index remapping in cli/src/generate.rs (source index -1 for imported fragments) are not encoded",
     "harnesses": [
         H("vlq_roundtrip_full", "sourcemap-writer", SW + "base64_vlq/mod.rs", "sourcemap_writer/vlq_h.rs", "verif_vlq",
@@ -94,6 +95,9 @@ PROPS["C06"] = {
           ["SourceWriter::new", "SourceWriter::write", "SourceWriter::flush_pending_indent", "utf16_len"],
           "two write() calls, each text 0..2 chars from {a, LF, U+1F600}, with or without a 2-space indentation level; CharSearcher::next_match stubbed (layout witness harness)",
           tiers=("thorough",), timeout=5400, mem_gb=32),
+        H("char_searcher_layout_witness", "sourcemap-writer", SW + "source_writer.rs", "sourcemap_writer/source_writer_h.rs", "verif_source_writer",
+          ["(stub validation) core::str::pattern::CharSearcher::next_match vs its stub, via a mirror struct"], "concrete searchers; real next_match and stub compared step by step",
+          tiers=("thorough",), timeout=1800, mem_gb=10, has_mutant=False),
         H("utf16_len_3chars", "sourcemap-writer", SW + "source_writer/utf16_len.rs", "sourcemap_writer/utf16_h.rs", "verif_utf16",
           ["utf16_len"], "strings of 0..3 arbitrary Unicode scalar values (all 0x110000-0x800 of them per position)",
           timeout=600, mem_gb=8),
